@@ -506,7 +506,14 @@ def validate_encoding(prog: Prog, view, fn, slots, m=None, points=1):
         inp = sample_inputs(view, m, k)
         try:
             real = view.concrete(fn, inp)
-        except Exception:
+        except Exception as e:
+            from .views import HarnessCallError
+            if isinstance(e, HarnessCallError) or view.backend == "c":
+                prog.notes.append({"encoder-validation-skip": f"{fn}: {e}"[:120]})
+                return
+            # the symbolic executor accepted the function but the really executed code raises
+            prog.fact(f"{view.backend}|{fn}|real-call", False, "RealCallRaised",
+                      f"{fn} raises when really called at {inp}: {type(e).__name__}: {str(e)[:200]}")
             return
         for idx, term in slots.items():
             try:
